@@ -304,7 +304,7 @@ func Harness_C01_table_refs() {
 // Harness_C01_table_logs: box A, reflogs: deletion / full / hash-less entries after 0..1 refs.
 // bounds: 0..1 refs + 1..2 logs (thorough 1..3); names 1 byte (all values), log kinds {deletion, full entry, entry with absent hashes}; hashes: 1 free byte + fixed tail; name/email 1 byte, message 0..2 ASCII bytes; the optional ref is a plain value ref, time/update index 0..127, tz any 16 bit; Config: BlockSize 160 (thorough: also 4096 default) x Unaligned x ExactLogMessage x HashID sha1 (thorough: also sha256)
 // assumes: message bytes < 0x80; update index and time < 128 (varint width decided at codec level)
-// covers: done, rejected
+// covers: done
 func Harness_C01_table_logs() {
 	cfg := Config{
 		BlockSize:       []uint32{160, 0}[VerifChoose(1+VerifTier())],
